@@ -9,7 +9,7 @@ Line protocol of the C14 model (sums are exact integers: `M := Int`).
   C14 specpv <req> <parts>   evalAggPV (per-value direct computation) over all documents of all parts
   C14 whole  <req> <parts>   finalize (collect all documents)
   C14 merged <req> <parts>   finalize (mergeFruits (parts.map collectSeg))   (with segment truncation)
-  C14 mergedtrim <req> <parts>   top-level composite only: finalize (fold merge (parts.map collectSegComposite)) — per-segment eviction
+  C14 mergedtrim <req> <parts>   top-level composite only: finalize (fold compMergeFruits (parts.map collectSegComposite)) — per-segment eviction and merge-time trim above 2*size
   C14 limit  <n> <req> <parts>   finalizeGuarded n on the merged tree: `ok <res>` | `err <count>`
   C14 defaults <size|_> <segment_size|_> <min_doc_count|_>   size, segment_size, min_doc_count, default bucket limit
   C14 extstats <sigma*4> <parts of integers>   extended_stats accumulator (Welford + Chan over Rat): count sum Σv² M2 sigma
@@ -177,7 +177,8 @@ def handle : List String → String
     match parseReqStr rq, parseParts ps with
     | some (.composite srcs size after sub), some parts =>
       let r := Req.composite srcs size after sub
-      let x : Inter Int r := (parts.map (collectSegComposite (M := Int) srcs size after sub)).foldl (merge r) (empty r)
+      let x : Inter Int r := (parts.map (collectSegComposite (M := Int) srcs size after sub)).foldl
+        (compMergeFruits (entryMerge (merge (M := Int) sub)) size after) (empty r)
       showRes r (finalize r x)
     | _, _ => "bad-op"
   | ["limit", n, rq, ps] =>
